@@ -228,7 +228,7 @@ Builtin(mm, name, args) ==
     [] name = "freeze" -> IF n # 1 THEN WrongArgs ELSE Freeze(h, args[1], 0)
     [] name = "type_name" ->
          IF n # 1 THEN WrongArgs
-         ELSE IF args[1].k = "builtin" THEN Excluded("type-name")
+         ELSE IF args[1].k \in {"builtin", "hostfn"} THEN Excluded("type-name")
          ELSE Ok(h, VStr(Ascii(TypeName(args[1]))))
     [] name \in {"is_int", "is_float", "is_string", "is_bool", "is_char", "is_bytes", "is_error", "is_undefined"} ->
          IF n # 1 THEN WrongArgs
@@ -242,7 +242,7 @@ Builtin(mm, name, args) ==
     [] name = "is_immutable_map" -> IF n # 1 THEN WrongArgs ELSE Ok(h, VBool(args[1].k = "map" /\ args[1].imm))
     [] name = "is_time" -> IF n # 1 THEN WrongArgs ELSE Ok(h, VBool(FALSE))
     [] name = "is_function" -> IF n # 1 THEN WrongArgs ELSE Ok(h, VBool(args[1].k = "func"))
-    [] name = "is_callable" -> IF n # 1 THEN WrongArgs ELSE Ok(h, VBool(args[1].k \in {"func", "builtin"}))
+    [] name = "is_callable" -> IF n # 1 THEN WrongArgs ELSE Ok(h, VBool(args[1].k \in {"func", "builtin", "hostfn"}))
     [] name = "is_iterable" -> IF n # 1 THEN WrongArgs
                                ELSE Ok(h, VBool(args[1].k \in {"array", "map", "string", "bytes", "undef"}))
     [] OTHER -> Excluded("builtin-not-modelled")
@@ -279,10 +279,16 @@ DoCall(P, mm, f) ==   \* frame [k: "call", n, spread]
   LET raw == Rev(SubSeq(mm.vals, 1, f.n))
       callee == mm.vals[f.n + 1]
       m1 == Drop(mm, f.n + 1)
-  IN IF callee.k \notin {"func", "builtin"} THEN Fail(mm, "not_callable")
+  IN IF callee.k \notin {"func", "builtin", "hostfn"} THEN Fail(mm, "not_callable")
      ELSE IF f.spread /\ raw[f.n].k # "array" THEN Fail(mm, "not_an_array")
      ELSE LET args == IF f.spread THEN SubSeq(raw, 1, f.n - 1) \o ArrElems(mm.h, raw[f.n]) ELSE raw IN
           IF callee.k = "func" THEN CallFn(P, m1, callee, args, m1.ctl)
+          ELSE IF callee.k = "hostfn" THEN
+            \* functions provided by the host: "hostfail" returns a Go error, "hostpanic" panics (recovered by
+            \* RunContext), "hostid" returns its first argument
+            (CASE callee.name = "hostfail" -> Fail(m1, "host_error")
+               [] callee.name = "hostpanic" -> Fail(m1, "host_panic")
+               [] OTHER -> Push(m1, IF Len(args) > 0 THEN args[1] ELSE VUndef))
           ELSE Res(m1, Builtin(m1, callee.name, args))
 
 DoReturn(mm, v) ==
